@@ -121,7 +121,11 @@ class C41(Prop):
             "lines, lower faces, UPPER faces and the upper corner (forced in every in-box case), "
             "points within 1/1024 cell of the next grid line, points one ulp inside the faces, "
             "cases with a point outside the box incl. one ulp outside (ValueError); the first "
-            "point also handed over as a 1-D array; query arrays checked unmodified; "
+            "point also handed over as a 1-D array; query arrays checked unmodified and handed "
+            "over as float64 C-order, Fortran-order, non-contiguous and negative-stride views; "
+            "18% of the cases use integer boxes with query arrays of dtype int64/int32 "
+            "(integer points strictly inside cells, on nodes and upper faces) or float32 "
+            "(points on a 1/8 lattice) for interpolate and gradient of both tables; "
             "adaptive table queried point by point (interpolate + gradients), its exceptions "
             "recorded as results; "
             "non-trivial = some query point lies on an upper face; distinct by (case, output)")
@@ -173,8 +177,54 @@ class C41(Prop):
             cs[-1 if d == 1 else 1] = rng.choice([-3, 2, 4])
         return cs
 
+    def _dtype_case(self, rng):
+        """Query arrays of integer / float32 dtype: integer boxes with integer mesh size >= 2
+        (integer points strictly inside cells exist) resp. points on a 1/8 lattice."""
+        qd = rng.choice(["int64", "int64", "int32", "float32"])
+        d = rng.choice([1, 2, 2, 3])
+        npt = [rng.randint(2, 5) for _ in range(d)]
+        zero_low = rng.random() < 0.2
+        low = [Fr(0) if zero_low else Fr(rng.randint(-12, 12)) for _ in range(d)]
+        hs = [Fr(rng.choice([2, 3, 4, 8] if qd != "float32" else [1, 2, 4])) for _ in range(d)]
+        high = [low[i] + (npt[i] - 1) * hs[i] for i in range(d)]
+        dim = rng.choice([1, 1, 2])
+        css = [self._coeffs(rng, d) for _ in range(dim)]
+        pts = []
+        for j in range(rng.randint(5, 7)):
+            p = []
+            for i in range(d):
+                k = rng.randint(0, npt[i] - 2)
+                r = rng.random()
+                if j == 1 or r < 0.15:
+                    c = high[i]                                   # upper face / corner
+                elif j == 0 or r < 0.75:                          # strictly inside a cell
+                    if qd == "float32":
+                        c = low[i] + k * hs[i] + hs[i] * Fr(rng.randint(1, 7), 8)
+                    else:
+                        c = low[i] + k * hs[i] + rng.randint(1, int(hs[i]) - 1)
+                else:
+                    c = low[i] + rng.randint(0, npt[i] - 1) * hs[i]   # a grid node
+                p.append(c)
+            pts.append(p)
+        kind = "inbox"
+        if rng.random() < 0.08:
+            i = rng.randrange(d)
+            pts[rng.randrange(len(pts))][i] = high[i] + 1 if rng.random() < 0.5 else low[i] - 1
+            kind = "outside"
+        return {
+            "d": d, "npt": npt,
+            "low": [[c.numerator, c.denominator] for c in low],
+            "high": [[c.numerator, c.denominator] for c in high],
+            "cs": css[0], "css": css, "default_base": bool(zero_low),
+            "pts": [[[c.numerator, c.denominator] for c in p] for p in pts],
+            "kind": kind, "cmp_store": True, "qdtype": qd,
+        }
+
     def generate(self, rng, n, tier):
         for it in range(n):
+            if rng.random() < 0.18:
+                yield self._dtype_case(rng)
+                continue
             d, npt, low, high, dyadic_h, zero_low = self._grid(rng)
             dim = rng.choice([1, 1, 1, 2, 3])     # dimension of the function range
             css = [self._coeffs(rng, d) for _ in range(dim)]
@@ -253,6 +303,8 @@ class C41(Prop):
                 "pts": [[[c.numerator, c.denominator] for c in p] for p in pts],
                 "kind": kind,
                 "cmp_store": bool(dyadic_h and not near and not hair),
+                # memory layout of the query array handed to the tables
+                "qdtype": rng.choice(["float64", "float64", "float64", "fortran", "view", "reversed"]),
             }
 
     # ---------------------------------------------------------------- implementation
@@ -265,6 +317,25 @@ class C41(Prop):
         npt = np.array(case["npt"], dtype=int)
         X = np.array([[float(_fr(c)) for c in p] for p in case["pts"]]).T.reshape(d, -1)
         npts = X.shape[1]
+        qd = case.get("qdtype", "float64")
+
+        def conv(A):
+            """the query array in the requested dtype / memory layout (values unchanged)"""
+            if qd in ("int64", "int32", "float32"):
+                B = A.astype(getattr(np, qd))
+            elif qd == "fortran":
+                B = np.asfortranarray(A.copy())
+            elif qd == "view":          # non-contiguous view: every second entry of a wider array
+                W = np.full(A.shape[:-1] + (2 * A.shape[-1],), 7.25)
+                W[..., ::2] = A
+                B = W[..., ::2]
+            elif qd == "reversed":      # negative stride
+                B = A[..., ::-1].copy()[..., ::-1]
+            else:
+                B = A.copy()
+            assert B.shape == A.shape and np.array_equal(B.astype(np.float64), A), \
+                "harness: query conversion is not lossless"
+            return B
 
         def func(*c):
             z = [float(v) for v in c]
@@ -290,12 +361,12 @@ class C41(Prop):
                 return ["err", "AssertErr"]
 
         t = InterpolationTable(low, high, npt, func, dim=dim)
-        Xc = X.copy()
+        Xc = conv(X)
         interp = split(call(lambda: t.interpolate(Xc)))
         grads = [split(call(lambda ax=ax: t.gradient(Xc, ax))) for ax in range(d)]
-        assert np.array_equal(Xc, X), "query points were modified in place"
+        assert np.array_equal(Xc.astype(np.float64), X), "query points were modified in place"
         # a single point handed over as a 1-D array
-        single = split(call(lambda: t.interpolate(X[:, 0].copy())))
+        single = split(call(lambda: t.interpolate(conv(X[:, 0]))))
 
         base = None if case.get("default_base") else low
         a = AdaptiveInterpolationTable(dx=(high - low) / (npt - 1), base_point=base, function=func,
@@ -306,12 +377,12 @@ class C41(Prop):
         try:
             for j in range(npts):
                 x = X[:, j].reshape(d, 1)
-                v = np.asarray(a.interpolate(x.copy())).reshape(dim)
+                v = np.asarray(a.interpolate(conv(x))).reshape(dim)
                 aq.append([j, None])
                 for k in range(dim):
                     aout[k].append(float(v[k]))
                 for ax in range(d):
-                    v = np.asarray(a.gradient(x.copy(), ax)).reshape(dim)
+                    v = np.asarray(a.gradient(conv(x), ax)).reshape(dim)
                     aq.append([j, ax])
                     for k in range(dim):
                         aout[k].append(float(v[k]))
